@@ -242,6 +242,10 @@ def body_seq(case, ctx):
         want = [dl.degree_of_size(method, dl.resolve_size(method, s)) for s in req]
         ctx.nt(len(set(req)) >= 2 and any(s not in sizes for s in req))
         ctx.check(list(map(int, got)) == want, "convert-elementwise", f"{method} sizes={req}: got {list(got)}, expected {want}")
+        # the request array is the caller's: it still holds the sizes, and using it a second time resolves the same way
+        ctx.check(list(map(int, arg)) == [int(v) for v in req], "request-sequence-overwritten", f"{method}: sizes array {req} became {list(arg)} after the conversion")
+        got2 = AngularGrid.convert_angular_sizes_to_degrees(arg, method)
+        ctx.check(list(map(int, got2)) == want, "convert-elementwise", f"{method} sizes={req}: second conversion of the same array gives {list(got2)}, expected {want}")
         return
     if route.startswith("atom"):
         seq = case["seq"][:1] if case["single"] else case["seq"]
@@ -263,6 +267,9 @@ def body_seq(case, ctx):
             seq, table_vals = sz, sizes
         ctx.nt(len(set(seq)) >= 2 and any(v not in table_vals for v in seq))
         ctx.check(list(map(int, ag.degrees)) == want, "atomgrid-degrees", f"{method} {route} {seq}: degrees {list(ag.degrees)}, expected {want}")
+        ctx.check([int(v) for v in arg] == [int(v) for v in seq], "request-sequence-overwritten", f"{method} {route}: the caller's sequence {seq} became {list(arg)}")
+        ag_again = AtomGrid(rg, degrees=arg, method=method) if route == "atom-degrees" else AtomGrid(rg, degrees=None, sizes=arg, method=method)
+        ctx.check(list(map(int, ag_again.degrees)) == want, "atomgrid-degrees", f"{method} {route} {seq}: a second AtomGrid from the same sequence object has degrees {list(ag_again.degrees)}, expected {want}")
         got_sizes = list(np.diff(ag.indices))
         ctx.check(got_sizes == [dl.size_of_degree(method, d) for d in want], "atomgrid-shell-sizes", f"{method} {route} {seq}: shell sizes {got_sizes}")
         return
